@@ -109,6 +109,10 @@ struct Case {
     /// index into `PREDICATES` (ignored by `Route::Batch`)
     pred: usize,
     route: Route,
+    /// in-memory routes only: the children of a NULL struct row hold non-NULL
+    /// values (a valid Arrow array; Parquet cannot store this)
+    #[serde(default)]
+    garbage: bool,
 }
 
 // ---------------------------------------------------------------------------
@@ -267,7 +271,7 @@ fn str_array(t: StrTy, idx: &[u8]) -> ArrayRef {
     }
 }
 
-fn file_batch(file: &[Col], rows: &[Row]) -> RecordBatch {
+fn file_batch(file: &[Col], rows: &[Row], garbage: bool) -> RecordBatch {
     let n = rows.len();
     let mut fields = vec![];
     let mut arrays: Vec<ArrayRef> = vec![];
@@ -287,9 +291,9 @@ fn file_batch(file: &[Col], rows: &[Row]) -> RecordBatch {
                 let mut ars: Vec<ArrayRef> = vec![];
                 for f in sf {
                     let (nm, ar): (&str, ArrayRef) = match f {
-                        // children under a NULL parent carry a non-NULL garbage value
-                        SField::X(t) => ("x", num_array(*t, &parts.iter().map(|p| p.map_or(Some(2), |(xi, _)| num_val(xi))).collect::<Vec<_>>())),
-                        SField::Y(t) => ("y", str_array(*t, &parts.iter().map(|p| p.map_or(1, |(_, yi)| yi)).collect::<Vec<_>>())),
+                        // children under a NULL parent: NULL, or (garbage) a non-NULL value
+                        SField::X(t) => ("x", num_array(*t, &parts.iter().map(|p| p.map_or(if garbage { Some(2) } else { None }, |(xi, _)| num_val(xi))).collect::<Vec<_>>())),
+                        SField::Y(t) => ("y", str_array(*t, &parts.iter().map(|p| p.map_or(if garbage { 1 } else { 0 }, |(_, yi)| yi)).collect::<Vec<_>>())),
                         SField::Z => ("z", Arc::new(Int32Array::from(vec![Some(9); n]))),
                     };
                     fs.push(Arc::new(Field::new(nm, ar.data_type().clone(), true)));
@@ -340,7 +344,7 @@ fn table_rows(b: &RecordBatch) -> Result<Vec<TRow>, String> {
 // ---------------------------------------------------------------------------
 
 fn run_batch(c: &Case) -> Result<(), String> {
-    let fb = file_batch(&c.file, &c.rows);
+    let fb = file_batch(&c.file, &c.rows, c.garbage);
     let want: Result<Vec<TRow>, ()> = c.rows.iter().map(|r| expected_row(&c.file, r)).collect();
     let got = BatchAdapterFactory::new(table_schema()).make_adapter(&fb.schema()).and_then(|a| a.adapt_batch(&fb));
     match (want, got) {
@@ -377,7 +381,7 @@ fn physical_predicate(i: usize) -> Result<Arc<dyn datafusion::physical_plan::Phy
 }
 
 fn run_expr(c: &Case) -> Result<(), String> {
-    let fb = file_batch(&c.file, &c.rows);
+    let fb = file_batch(&c.file, &c.rows, c.garbage);
     let p = &PREDICATES[c.pred];
     let want: Result<Vec<bool>, ()> = c.rows.iter().map(|r| expected_row(&c.file, r).map(|t| (p.eval)(&t) == Some(true))).collect();
     let t = table_schema();
@@ -428,7 +432,7 @@ fn out_row(t: &TRow) -> OutRow {
 }
 
 fn run_scan(c: &Case, pushdown: bool, with_t_file: bool) -> Result<(), String> {
-    let fb = file_batch(&c.file, &c.rows);
+    let fb = file_batch(&c.file, &c.rows, false);
     let p = &PREDICATES[c.pred];
     let store = Arc::new(InMemory::new());
     futures::executor::block_on(store.put(&Path::from("t/f1.parquet"), PutPayload::from_bytes(parquet_bytes(&fb)))).unwrap();
@@ -436,7 +440,7 @@ fn run_scan(c: &Case, pushdown: bool, with_t_file: bool) -> Result<(), String> {
     let t_file: Vec<Col> = vec![Col::A(NumTy::Int64), Col::B(StrTy::Utf8), Col::C(vec![SField::X(NumTy::Int32), SField::Y(StrTy::Utf8)])];
     let t_rows = vec![Row { a: 2, b: 1, c: 1 }, Row { a: 0, b: 0, c: 0 }];
     if with_t_file {
-        let tb = file_batch(&t_file, &t_rows);
+        let tb = file_batch(&t_file, &t_rows, false);
         futures::executor::block_on(store.put(&Path::from("t/f0.parquet"), PutPayload::from_bytes(parquet_bytes(&tb)))).unwrap();
     }
     let mut all: Result<Vec<TRow>, ()> = c.rows.iter().map(|r| expected_row(&c.file, r)).collect();
@@ -606,20 +610,26 @@ fn explore(ctx: &Ctx) {
     let mut cases: Vec<Case> = vec![];
     for f in &specs {
         for rows in &ds {
-            cases.push(Case { file: f.clone(), rows: rows.clone(), pred: 0, route: Route::Batch });
-            for pi in 1..PREDICATES.len() {
-                cases.push(Case { file: f.clone(), rows: rows.clone(), pred: pi, route: Route::Expr });
+            // garbage under NULL parents only matters when some row has a NULL struct
+            let garbage_variants: &[bool] = if rows.iter().any(|r| r.c == 0) { &[false, true] } else { &[false] };
+            for &garbage in garbage_variants {
+                cases.push(Case { file: f.clone(), rows: rows.clone(), pred: 0, route: Route::Batch, garbage });
+                for pi in 1..PREDICATES.len() {
+                    cases.push(Case { file: f.clone(), rows: rows.clone(), pred: pi, route: Route::Expr, garbage });
+                }
             }
         }
         for pi in 0..PREDICATES.len() {
             for pushdown in [false, true] {
                 for with_t_file in [false, true] {
-                    cases.push(Case { file: f.clone(), rows: scan_rows.clone(), pred: pi, route: Route::Scan { pushdown, with_t_file } });
+                    cases.push(Case { file: f.clone(), rows: scan_rows.clone(), pred: pi, route: Route::Scan { pushdown, with_t_file }, garbage: false });
                 }
             }
         }
     }
     let identity = specs[0].clone();
+    let getfield_class: std::sync::Mutex<Vec<(String, String)>> = std::sync::Mutex::new(vec![]);
+    let simplifier_class: std::sync::Mutex<Vec<(String, String)>> = std::sync::Mutex::new(vec![]);
     cases.par_iter().for_each(|c| {
         if ctx.should_stop() {
             return;
@@ -639,17 +649,62 @@ fn explore(ctx: &Ctx) {
                 if c.file != identity {
                     ctx.nontrivial(c);
                     if matches!(c.route, Route::Scan { pushdown: true, with_t_file: true }) && c.pred == 7 && ctx.want_sample() {
-                        ctx.sample(json!({"case": c, "predicate": PREDICATES[c.pred].sql, "file_schema": format!("{}", file_batch(&c.file, &c.rows).schema())}));
+                        ctx.sample(json!({"case": c, "predicate": PREDICATES[c.pred].sql, "file_schema": format!("{}", file_batch(&c.file, &c.rows, false).schema())}));
                     }
                 }
             }
             Err(what) => {
                 let j = serde_json::to_value(c).unwrap();
+                // Root-cause triage: the case passes when the children of NULL
+                // struct rows are NULL too => the failure is `get_field` not
+                // applying the parent's validity, not schema adaptation.
+                if c.garbage {
+                    let mut twin = c.clone();
+                    twin.garbage = false;
+                    if mc_core::catch(|| run_case(&twin)).unwrap_or_else(Err).is_ok() {
+                        ctx.count("violations_of_class_get_field_ignores_parent_nulls", 1);
+                        getfield_class.lock().unwrap().push((j.to_string(), what));
+                        return;
+                    }
+                }
+                // Root-cause triage: a panic in the batch route that disappears when
+                // the extra file column is removed => the adapter's simplifier is
+                // looking at the (narrower) target schema.
+                if c.route == Route::Batch && c.file.contains(&Col::Extra) && what.starts_with("panic") {
+                    let mut twin = c.clone();
+                    twin.file.retain(|x| *x != Col::Extra);
+                    if mc_core::catch(|| run_case(&twin)).unwrap_or_else(Err).is_ok() {
+                        ctx.count("violations_of_class_batch_adapter_simplifier_schema", 1);
+                        simplifier_class.lock().unwrap().push((j.to_string(), what));
+                        return;
+                    }
+                }
                 ctx.violation(format!("{j}"), what, j);
             }
         }
     });
+    let mut v = simplifier_class.into_inner().unwrap();
+    v.sort_by(|a, b| (a.0.len(), &a.0).cmp(&(b.0.len(), &b.0)));
+    if let Some((j, what)) = v.first() {
+        ctx.violation(ROOT_CAUSE_SIMPLIFIER, what.clone(), serde_json::from_str(j).unwrap());
+    }
+    let mut v = getfield_class.into_inner().unwrap();
+    v.sort_by(|a, b| (a.0.len(), &a.0).cmp(&(b.0.len(), &b.0)));
+    if let Some((j, what)) = v.first() {
+        ctx.violation(ROOT_CAUSE_GET_FIELD, what.clone(), serde_json::from_str(j).unwrap());
+    }
 }
+
+/// `BatchAdapterFactory::make_adapter` simplifies the rewritten projection
+/// (column indices of the *source* schema) with a `PhysicalExprSimplifier` built
+/// on the *target* schema; a needed source column at an index >= the target
+/// width trips the simplifier's debug assertion (debug-assertion builds only).
+const ROOT_CAUSE_SIMPLIFIER: &str = "C44:BatchAdapterFactory::make_adapter:simplifier-built-on-target-schema-panics-on-wider-source";
+
+/// `get_field(struct_array, 'f')` returns the child array as is; rows whose
+/// *parent* struct is NULL keep whatever the child holds
+/// (`extract_single_field` in datafusion/functions/src/core/getfield.rs).
+const ROOT_CAUSE_GET_FIELD: &str = "C44:get_field:parent-struct-validity-not-applied-to-extracted-child";
 
 fn replay(v: &Json) -> Result<(), String> {
     let c: Case = serde_json::from_value(v.clone()).map_err(|e| format!("bad case: {e}"))?;
